@@ -28,6 +28,7 @@ pub fn run_property(id: &str, tier: Tier) -> i32 {
         "C13" => props::c13::run(tier),
         "C14" => props::c14::run(tier),
         "C15" => props::c15::run(tier),
+        "C16" => props::c16::run(tier),
         "C19" => props::c19::run(tier),
         _ => {
             eprintln!("unknown property {id}");
